@@ -158,41 +158,9 @@ def has_toplevel_dynamic_child(v):
     return any(has_toplevel_dynamic_child(c) for c in kids)
 
 
-def gen(tier, rng):
-    cases = []
-    n = 700 if tier == "quick" else 8000
-    for i in range(n):
-        st, v = viewgen.random_view(rng, rng.choice([2, 3, 4]), {"nossr": 0.5, "nohydrate": 0.5})
-        ops = gen_ops(rng, st, rng.randint(1, 6))
-        cases.append((st, v, ops))
-    return cases
-
-
-def main(argv):
-    a, seed = vlib.args(argv)
-    chk = vlib.Check(PID, a.tier, seed, "other")
-    rng = random.Random(seed * 1009 + 5)
-    chk.trusted = ["the in-process DOM harness/dom/shims/web-sys standing in for a browser", "tools/domgen.py (generated crate root, client polarity)",
-                   "harness/dom/dom-driver + harness/common/viewspec.rs", "tools/viewgen.py, tools/c05.py (generators, reference structure for the identity check)"]
-    chk.assumptions = ["event handlers, bind, NodeRef, Portal and properties are outside the vocabulary"]
-    chk.rule = ("random view trees of depth <= 4 over elements, static / dynamic text, dynamic views, Show, Keyed / Indexed (with item templates), components, "
-                "NoSsr / NoHydrate, static / dynamic / None / boolean attributes, nested arbitrarily; 1-6 signal writes (strings incl. metacharacters and "
-                "None, booleans, list permutations / insertions / removals / clears); after the initial render and after every write the DOM under the mount "
-                "point is compared with a fresh client render of the current state made by the real code in a second root, and node identity outside the "
-                "changed regions is compared before / after; non-trivial = some write changed the serialised DOM; distinct = distinct (state, view, ops)")
-    chk.cov["explanation"] = ("differential check of the real client back end against itself (in-place update vs fresh render) plus an identity oracle; "
-                              "no Coq theorem is claimed for this property yet")
-    binp = domlib.build(chk)
-    if not binp:
-        chk.violation({"property": PID, "broken": "harness build"}, no_input=True)
-        return chk.finish()
-    cases = gen(a.tier, rng)
-    lines = ["(client %s %s (%s))" % (viewgen.sx_state(st), viewgen.sx_view(v), " ".join(sx_op(o) for o in ops)) for st, v, ops in cases]
-    try:
-        impl = domlib.run(binp, lines)
-    except RuntimeError as e:
-        chk.violation({"property": PID, "broken": "driver run", "detail": str(e)}, no_input=True)
-        return chk.finish()
+def evaluate(chk, cases, impl, lines):
+    """the oracle on the driver output of `(client ...)` scenarios: after the initial render and after every write the DOM equals a
+    fresh render of the current state, node identity is preserved outside the changed regions, no warnings / panics"""
     orfail = []
     dist = {}
     for ci, ((st, v, ops), out, line) in enumerate(zip(cases, impl, lines)):
@@ -240,6 +208,104 @@ def main(argv):
         for o in orfail[nfail:]:
             o["case"] = ci
         chk.note_case(line, changed)
+    return orfail
+
+
+def nested_region_cases(tier, rng):
+    """dynamic regions whose branches have other self-updating regions (dynamic views, lists, Show, dynamic text) directly at
+    their top level, with every short sequence of writes to the outer and inner inputs (the inner one changes between two outer updates)"""
+    E = lambda tag, *kids: ("el", tag, [], list(kids))
+    T = lambda s: ("text", s)
+    D = lambda k, a, b: ("dyn", k, list(a), list(b))
+    li = [E("li", ("item",))]
+    views = [
+        E("div", E("span", T("static")), D(0, [E("b", T("o")), D(1, [E("em", T("i1"))], [E("em", T("i0"))])], [T("off")])),
+        E("div", D(0, [D(1, [T("A")], [T("B")]), E("i", T("x"))], [D(1, [T("C")], [])])),
+        E("p", D(0, [T("Hello "), ("dyntext", 0), T("!")], [T("Please log in")])),
+        E("ul", D(0, [("list", True, 0, li)], [E("li", T("none"))])),
+        E("ul", D(0, [T("h"), ("list", False, 0, li), T("t")], [("list", True, 0, li)])),
+        E("div", D(0, [("show", 1, [E("p", T("s"))]), T("x")], [T("y")])),
+        E("div", D(0, [D(1, [D(2, [T("a")], [T("b")]), T("c")], [T("d")])], [T("e")]), T("end")),
+        ("frag", [D(0, [D(1, [E("u", T("1"))], [])], []), E("hr")]),
+        E("div", D(0, [("comp", [D(1, [T("A")], [T("B")])])], [("frag", [D(1, [T("C")], [T("D")])])])),
+    ]
+    out = []
+    for v in views:
+        st = {"s": {0: "Ann"}, "b": {0: rng.random() < 0.5, 1: True, 2: False}, "l": {0: [1, 2]}}
+        alphabet = [("b", 0), ("b", 1), ("b", 2), ("s", 0), ("l", 0)]
+        used = set()
+        def walk(x):
+            if x[0] in ("dyn", "show"):
+                used.add(("b", x[1]))
+            if x[0] == "dyntext":
+                used.add(("s", x[1]))
+            if x[0] == "list":
+                used.add(("l", x[2]))
+            kids = x[3] if x[0] in ("el", "list") else (x[2] + x[3] if x[0] == "dyn" else (x[2] if x[0] == "show" else (x[1] if x[0] in ("frag", "comp") else [])))
+            for c in kids:
+                walk(c)
+        walk(v)
+        alphabet = [a for a in alphabet if a in used]
+        import itertools
+        seqs = [q for n in (2, 3, 4) for q in itertools.product(alphabet, repeat=n)]
+        if tier == "quick" and len(seqs) > 60:
+            seqs = rng.sample(seqs, 60)
+        for q in seqs:
+            cur = copy.deepcopy(st)
+            ops = []
+            cnt = 0
+            for kind, k in q:
+                cnt += 1
+                if kind == "b":
+                    val = not cur["b"][k]
+                elif kind == "s":
+                    val = "Bob%d" % cnt
+                else:
+                    old = cur["l"][k]
+                    val = rng.choice([old + [cnt + 2], old[1:], list(reversed(old)), [9, 1]])
+                cur[kind][k] = val
+                ops.append((kind, k, val))
+            out.append((copy.deepcopy(st), v, ops))
+    return out
+
+
+def gen(tier, rng):
+    cases = nested_region_cases(tier, rng)
+    n = 700 if tier == "quick" else 8000
+    for i in range(n):
+        st, v = viewgen.random_view(rng, rng.choice([2, 3, 4]), {"nossr": 0.5, "nohydrate": 0.5})
+        ops = gen_ops(rng, st, rng.randint(1, 6))
+        cases.append((st, v, ops))
+    return cases
+
+
+def main(argv):
+    a, seed = vlib.args(argv)
+    chk = vlib.Check(PID, a.tier, seed, "other")
+    rng = random.Random(seed * 1009 + 5)
+    chk.trusted = ["the in-process DOM harness/dom/shims/web-sys standing in for a browser", "tools/domgen.py (generated crate root, client polarity)",
+                   "harness/dom/dom-driver + harness/common/viewspec.rs", "tools/viewgen.py, tools/c05.py (generators, reference structure for the identity check)"]
+    chk.assumptions = ["event handlers, bind, NodeRef, Portal and properties are outside the vocabulary"]
+    chk.rule = ("random view trees of depth <= 4 over elements, static / dynamic text, dynamic views, Show, Keyed / Indexed (with item templates), components, "
+                "NoSsr / NoHydrate, static / dynamic / None / boolean attributes, nested arbitrarily; 1-6 signal writes (strings incl. metacharacters and "
+                "None, booleans, list permutations / insertions / removals / clears); after the initial render and after every write the DOM under the mount "
+                "point is compared with a fresh client render of the current state made by the real code in a second root, and node identity outside the "
+                "changed regions is compared before / after; non-trivial = some write changed the serialised DOM; distinct = distinct (state, view, ops)")
+    chk.cov["explanation"] = ("differential check of the real client back end against itself (in-place update vs fresh render) plus an identity oracle; "
+                              "no Coq theorem is claimed for this property yet")
+    binp = domlib.build(chk)
+    if not binp:
+        chk.violation({"property": PID, "broken": "harness build"}, no_input=True)
+        return chk.finish()
+    cases = gen(a.tier, rng)
+    lines = ["(client %s %s (%s))" % (viewgen.sx_state(st), viewgen.sx_view(v), " ".join(sx_op(o) for o in ops)) for st, v, ops in cases]
+    try:
+        impl = domlib.run(binp, lines)
+    except RuntimeError as e:
+        chk.violation({"property": PID, "broken": "driver run", "detail": str(e)}, no_input=True)
+        return chk.finish()
+    orfail = evaluate(chk, cases, impl, lines)
+    dist = {}
     findings = {f["key"]: f for f in vlib.load_findings(PID)}
     real = []
     for o in orfail:
